@@ -31,5 +31,8 @@ CtxJ(c) == [rules |-> {[src |-> HashKey(r.src), dst |-> HashKey(r.dst), coef |->
 ASSUME PrintT(<<"CONST", ToJson([units |-> [n \in DOMAIN Base.units |-> UnitJ(Base.units[n])],
                                  ctxs |-> [c \in DOMAIN Pool |-> CtxJ(Pool[c])], systems |-> Sys, newunit |-> UnitJ(NewUnit),
                                  probes |-> ProbeKeys])>>)
-AllOps == {"enable", "disable", "with", "define", "system", "query"}
+\* two-name activations: rule + redefinition, two redefinitions, and both orders of an ill-formed member (the well-formed
+\* member's redefinition must not survive the failed call)
+Pairs == {<<"R", "D">>, <<"RD", "D">>, <<"D", "BAD">>, <<"BAD", "RD">>}
+AllOps == {"enable", "enable2", "disable", "with", "with2", "define", "system", "query"}
 =============================================================================
